@@ -239,7 +239,10 @@ pub(crate) fn convert_inner(
     );
 
     let abs_transform = parent.abs_transform.pre_concat(image_ts);
-    let abs_bounding_box = rect.transform(abs_transform)?;
+    // `abs_transform` maps the image itself (`0 0 width height`), not the `image` element rect.
+    let abs_bounding_box = actual_size
+        .to_non_zero_rect(0.0, 0.0)
+        .transform(abs_transform)?;
 
     let mut g = Group::empty();
     g.id = id;
